@@ -131,6 +131,28 @@ pub enum BlockSpec {
     SignalSourceC32,
     NullSinkU8,
     VectorSinkU8 { max: u32 },
+    /// harness-defined derive blocks (C19); kind: see `derived.rs`
+    Derived { kind: u8, k: u32 },
+}
+
+pub const DERIVED_KINDS: u8 = 10;
+pub fn derived_shape(kind: u8) -> (usize, usize) {
+    // (inputs, sample outputs)
+    match kind {
+        0 => (1, 1),
+        1 => (1, 2),
+        2 => (1, 3),
+        3 => (2, 1),
+        4 => (2, 2),
+        5 => (2, 3),
+        6 => (1, 1),
+        7 => (2, 1),
+        8 => (1, 1),
+        _ => (1, 1),
+    }
+}
+pub fn derived_strategy() -> BoxedStrategy<BlockSpec> {
+    (0u8..DERIVED_KINDS, 0u32..1000).prop_map(|(kind, k)| BlockSpec::Derived { kind, k }).boxed()
 }
 
 /// Sources and sinks: driven like any block, but without the chunking twin.
@@ -281,6 +303,7 @@ impl BlockSpec {
             SignalSourceC32 => "SignalSourceComplex",
             NullSinkU8 => "NullSink",
             VectorSinkU8 { .. } => "VectorSink",
+            Derived { kind, .. } => ["S11", "S12", "S13", "S21", "S22", "S23", "T11", "T21", "SDefInto", "N12"][(*kind % DERIVED_KINDS) as usize],
         }
     }
 
@@ -332,6 +355,7 @@ impl BlockSpec {
             DelayU8 { delay } | DelayF32 { delay } => TagRule::Shift(*delay as usize),
             FirF32 { deci, .. } | FirC32 { deci, .. } => TagRule::Div(*deci as usize),
             FftFilter { .. } | FftFilterFloat { .. } | Hilbert { .. } => TagRule::Same,
+            Derived { kind, .. } if *kind != 9 => TagRule::Same,
             _ => TagRule::NotClaimed,
         }
     }
@@ -391,6 +415,7 @@ impl BlockSpec {
             ToTextF32 { n } => (0..*n as usize).map(|i| D::F32(gen_f32(&Gen { len: g[i].len.min(300), ..g[i] }, FDom::Any))).collect(),
             VectorSourceU8 { .. } | ConstantSourceF32 { .. } | SignalSourceF32 | SignalSourceC32 => vec![],
             NullSinkU8 | VectorSinkU8 { .. } => vec![D::U8(gen_u8(&g[0], BDom::Bytes))],
+            Derived { kind, .. } => (0..derived_shape(*kind).0).map(|i| D::U32(gen_u32_small(&g[i]))).collect(),
         }
     }
 
@@ -455,6 +480,7 @@ impl BlockSpec {
                 let (p, $r) = sin!($variant);
                 let (b, o) = $ctor;
                 Built {
+                    sink_probe: None,
                     name: self.name().to_string(),
                     block: Box::new(b),
                     ins: vec![p],
@@ -468,6 +494,7 @@ impl BlockSpec {
                 let (pb, $b) = sin!($vb);
                 let (blk, o) = $ctor;
                 Built {
+                    sink_probe: None,
                     name: self.name().to_string(),
                     block: Box::new(blk),
                     ins: vec![pa, pb],
@@ -500,12 +527,12 @@ impl BlockSpec {
             TeeU8 => {
                 let (p, r) = sin!(U8);
                 let (b, o1, o2) = Tee::new(r);
-                Built { name: "Tee".into(), block: Box::new(b), ins: vec![p], outs: vec![Box::new(SOut::new(o1)), Box::new(SOut::new(o2))] }
+                Built { sink_probe: None, name: "Tee".into(), block: Box::new(b), ins: vec![p], outs: vec![Box::new(SOut::new(o1)), Box::new(SOut::new(o2))] }
             }
             TeeF32 => {
                 let (p, r) = sin!(F32);
                 let (b, o1, o2) = Tee::new(r);
-                Built { name: "Tee".into(), block: Box::new(b), ins: vec![p], outs: vec![Box::new(SOut::new(o1)), Box::new(SOut::new(o2))] }
+                Built { sink_probe: None, name: "Tee".into(), block: Box::new(b), ins: vec![p], outs: vec![Box::new(SOut::new(o1)), Box::new(SOut::new(o2))] }
             }
             SkipU8 { skip } => one!(U8, |r| Skip::new(r, skip as usize)),
             SkipF32 { skip } => one!(F32, |r| Skip::new(r, skip as usize)),
@@ -534,22 +561,22 @@ impl BlockSpec {
                 let (mut b, o) = HdlcDeframer::new(r, min as usize, max as usize);
                 b.set_checksum(checksum);
                 b.set_fix_bits(fix);
-                Built { name: "HdlcDeframer".into(), block: Box::new(b), ins: vec![p], outs: vec![Box::new(POut::new(o))] }
+                Built { sink_probe: None, name: "HdlcDeframer".into(), block: Box::new(b), ins: vec![p], outs: vec![Box::new(POut::new(o))] }
             }
             Il2p => {
                 let (p, r) = sin!(U8);
                 let (b, o) = Il2pDeframer::new(r);
-                Built { name: "Il2pDeframer".into(), block: Box::new(b), ins: vec![p], outs: vec![Box::new(POut::new(o))] }
+                Built { sink_probe: None, name: "Il2pDeframer".into(), block: Box::new(b), ins: vec![p], outs: vec![Box::new(POut::new(o))] }
             }
             StreamToPduU8 { max, tail } => {
                 let (p, r) = sin!(U8);
                 let (b, o) = StreamToPdu::new(r, "burst", max as usize, tail as usize);
-                Built { name: "StreamToPdu".into(), block: Box::new(b), ins: vec![p], outs: vec![Box::new(POut::new(o))] }
+                Built { sink_probe: None, name: "StreamToPdu".into(), block: Box::new(b), ins: vec![p], outs: vec![Box::new(POut::new(o))] }
             }
             StreamToPduF32 { max, tail } => {
                 let (p, r) = sin!(F32);
                 let (b, o) = StreamToPdu::new(r, "burst", max as usize, tail as usize);
-                Built { name: "StreamToPdu".into(), block: Box::new(b), ins: vec![p], outs: vec![Box::new(POut::new(o))] }
+                Built { sink_probe: None, name: "StreamToPdu".into(), block: Box::new(b), ins: vec![p], outs: vec![Box::new(POut::new(o))] }
             }
             VecToStreamU8 => {
                 let d = match it.next() {
@@ -559,7 +586,7 @@ impl BlockSpec {
                 let (p, r) = PIn::new(d);
                 sss(out_size);
                 let (b, o) = VecToStream::new(r);
-                Built { name: "VecToStream".into(), block: Box::new(b), ins: vec![Box::new(p)], outs: vec![Box::new(SOut::new(o))] }
+                Built { sink_probe: None, name: "VecToStream".into(), block: Box::new(b), ins: vec![Box::new(p)], outs: vec![Box::new(SOut::new(o))] }
             }
             ToTextU8 { n } => {
                 let mut ins = Vec::new();
@@ -570,7 +597,7 @@ impl BlockSpec {
                     rs.push(r);
                 }
                 let (b, o) = ToText::new(rs);
-                Built { name: "ToText".into(), block: Box::new(b), ins, outs: vec![Box::new(SOut::new(o))] }
+                Built { sink_probe: None, name: "ToText".into(), block: Box::new(b), ins, outs: vec![Box::new(SOut::new(o))] }
             }
             ToTextF32 { n } => {
                 let mut ins = Vec::new();
@@ -581,7 +608,7 @@ impl BlockSpec {
                     rs.push(r);
                 }
                 let (b, o) = ToText::new(rs);
-                Built { name: "ToText".into(), block: Box::new(b), ins, outs: vec![Box::new(SOut::new(o))] }
+                Built { sink_probe: None, name: "ToText".into(), block: Box::new(b), ins, outs: vec![Box::new(SOut::new(o))] }
             }
             FftStream { size } => one!(C32, |r| rustradio::blocks::FftStream::new(r, 1usize << size)),
             VectorSourceU8 { len, repeat } => {
@@ -589,32 +616,58 @@ impl BlockSpec {
                 let data = vector_source_data(len);
                 let rep = if repeat == 255 { rustradio::Repeat::infinite() } else { rustradio::Repeat::finite(repeat as u64) };
                 let (b, o) = VectorSourceBuilder::new(data).repeat(rep).build();
-                Built { name: "VectorSource".into(), block: Box::new(b), ins: vec![], outs: vec![Box::new(SOut::new(o))] }
+                Built { sink_probe: None, name: "VectorSource".into(), block: Box::new(b), ins: vec![], outs: vec![Box::new(SOut::new(o))] }
             }
             ConstantSourceF32 { val } => {
                 sss(out_size);
                 let (b, o) = ConstantSource::new(val);
-                Built { name: "ConstantSource".into(), block: Box::new(b), ins: vec![], outs: vec![Box::new(SOut::new(o))] }
+                Built { sink_probe: None, name: "ConstantSource".into(), block: Box::new(b), ins: vec![], outs: vec![Box::new(SOut::new(o))] }
             }
             SignalSourceF32 => {
                 sss(out_size);
                 let (b, o) = SignalSourceFloat::new(48000.0, 1200.0, 0.5);
-                Built { name: "SignalSourceFloat".into(), block: Box::new(b), ins: vec![], outs: vec![Box::new(SOut::new(o))] }
+                Built { sink_probe: None, name: "SignalSourceFloat".into(), block: Box::new(b), ins: vec![], outs: vec![Box::new(SOut::new(o))] }
             }
             SignalSourceC32 => {
                 sss(out_size);
                 let (b, o) = SignalSourceComplex::new(48000.0, 1200.0, 0.5);
-                Built { name: "SignalSourceComplex".into(), block: Box::new(b), ins: vec![], outs: vec![Box::new(SOut::new(o))] }
+                Built { sink_probe: None, name: "SignalSourceComplex".into(), block: Box::new(b), ins: vec![], outs: vec![Box::new(SOut::new(o))] }
             }
             NullSinkU8 => {
                 let (p, r) = sin!(U8);
                 let b = NullSink::new(r);
-                Built { name: "NullSink".into(), block: Box::new(b), ins: vec![p], outs: vec![] }
+                Built { sink_probe: None, name: "NullSink".into(), block: Box::new(b), ins: vec![p], outs: vec![] }
+            }
+            Derived { kind, k } => {
+                use crate::derived::*;
+                macro_rules! outs {
+                    ($($o:ident),*) => { vec![$(Box::new(SOut::new($o)) as Box<dyn OutPort>),*] };
+                }
+                let nm = self.name().to_string();
+                match kind % DERIVED_KINDS {
+                    0 => one!(U32, |r| S11::new(r, k)),
+                    1 => { let (p, r) = sin!(U32); let (b, x, y) = S12::new(r, k);
+                           Built { sink_probe: None, name: nm, block: Box::new(b), ins: vec![p], outs: outs!(x, y) } }
+                    2 => { let (p, r) = sin!(U32); let (b, x, y, z) = S13::new(r, k);
+                           Built { sink_probe: None, name: nm, block: Box::new(b), ins: vec![p], outs: outs!(x, y, z) } }
+                    3 => two!(U32, U32, |a, b| S21::new(a, b, k)),
+                    4 => { let (pa, a) = sin!(U32); let (pb, b) = sin!(U32); let (blk, x, y) = S22::new(a, b, k);
+                           Built { sink_probe: None, name: nm, block: Box::new(blk), ins: vec![pa, pb], outs: outs!(x, y) } }
+                    5 => { let (pa, a) = sin!(U32); let (pb, b) = sin!(U32); let (blk, x, y, z) = S23::new(a, b, k);
+                           Built { sink_probe: None, name: nm, block: Box::new(blk), ins: vec![pa, pb], outs: outs!(x, y, z) } }
+                    6 => one!(U32, |r| T11::new(r, k)),
+                    7 => two!(U32, U32, |a, b| T21::new(a, b, k)),
+                    8 => one!(U32, |r| SDefInto::new(r, k)),
+                    _ => { let (p, r) = sin!(U32); let (b, x, pk) = N12::new(r, k);
+                           Built { sink_probe: None, name: nm, block: Box::new(b), ins: vec![p], outs: vec![Box::new(SOut::new(x)), Box::new(POut::new(pk))] } }
+                }
             }
             VectorSinkU8 { max } => {
                 let (p, r) = sin!(U8);
                 let b = VectorSink::new(r, max as usize);
-                Built { name: "VectorSink".into(), block: Box::new(b), ins: vec![p], outs: vec![] }
+                let hook = b.hook();
+                let probe: Box<dyn Fn() -> Vec<u64>> = Box::new(move || hook.data().samples().iter().map(|x| *x as u64).collect());
+                Built { sink_probe: Some(probe), name: "VectorSink".into(), block: Box::new(b), ins: vec![p], outs: vec![] }
             }
         };
         sss(None);
